@@ -1116,7 +1116,7 @@ func vrStale(c map[string]any) common.Result {
 	select {
 	case <-w2:
 		settled = r.settle(20 * time.Second)
-	case <-time.After(45 * time.Second):
+	case <-time.After(15 * time.Second):
 	}
 	close(gate)
 	wg.Wait()
